@@ -275,7 +275,8 @@ func (e *engine) runPair(j job, budget time.Duration, jobSeed int64) {
 			trail := []byte{0xde, 0xad, 0xbe, 0xef, 1, 2, 3}
 			b2, _ := val.Unhex(hexB2)
 			withTrail := val.Hex(append(append([]byte(nil), b2...), trail...))
-			for _, chunk := range []string{"all", "one", fmt.Sprintf("rnd%d", round)} {
+			// "seek" / "bufio": readers that offer more than io.Reader (Seek, Discard, WriteTo) must decode alike
+			for _, chunk := range []string{"all", "one", fmt.Sprintf("rnd%d", round), "seek", "bufio"} {
 				for _, data := range []string{hexB2, withTrail} {
 					op := fmt.Sprintf("decode %d %s %s", di, chunk, data)
 					rd := r.real(op)
